@@ -10,6 +10,100 @@ def pcfg(P, shared, writes, nplans):
             % (P, shared, writes, nplans))
 
 
+def hcfg(nlen, nvar, maxc, reslice="TRUE", memo="full", derive="TRUE"):
+    return ('CONSTANTS NLen=%d NVar=%d MaxCalls=%d Reslice=%s MemoKey="%s" DeriveCopy=%s\nSPECIFICATION Spec\nINVARIANTS TypeOK HistoryIndependent Repeatable\nCHECK_DEADLOCK FALSE\n'
+            % (nlen, nvar, maxc, reslice, memo, derive))
+
+
+def history_part(run, hz, thorough, rng):
+    """Sequential side of C18 (History.tla): every history of <= 3 calls over (length class x data variant), each executed by a
+    fresh process against the real library; every result must equal the solitary one (TraceHistory.tla)."""
+    nlen, nvar, maxc = (3, 2, 3)
+    r = vlib.tlc_ok(vlib.run_tlc("History", hcfg(nlen, nvar, maxc), workers=1, timeout=600), "History")
+    run.add_tlc(r, "History NLen=%d NVar=%d MaxCalls=%d pure switches: every history, HistoryIndependent" % (nlen, nvar, maxc))
+    plans, seen = [], set()
+    for v in r.json:
+        if v.get("ev") == "hplan":
+            k = tuple(v["calls"])
+            if k not in seen:
+                seen.add(k); plans.append(list(k))
+    want = sum((nlen * nvar) ** k for k in range(1, maxc + 1))
+    if len(plans) != want:
+        raise vlib.InfraError("History emitted %d plans, expected %d" % (len(plans), want))
+    # negative controls: each kind of retained state breaks the invariant; the in-place table only with three calls
+    for name, c in [("pool keeps stale length", hcfg(nlen, nvar, maxc, reslice="FALSE")), ("memo keyed by length only", hcfg(nlen, nvar, maxc, memo="len")),
+                    ("table derived in place", hcfg(nlen, nvar, maxc, derive="FALSE"))]:
+        rn = vlib.run_tlc("History", c, workers=1, timeout=300)
+        if rn.violated not in ("HistoryIndependent", "Repeatable"):
+            raise vlib.InfraError("vacuity guard: History with '%s' should violate HistoryIndependent, got %s" % (name, rn.violated))
+        run.configs.append({"config": "negative: History, " + name, "violates": rn.violated})
+    r2 = vlib.run_tlc("History", hcfg(nlen, nvar, 2, derive="FALSE"), workers=1, timeout=300)
+    if r2.violated or r2.rc != 0:
+        raise vlib.InfraError("History: the in-place table should need three calls to show (two calls gave %s)" % r2.violated)
+    run.configs.append({"config": "History, table derived in place, MaxCalls=2", "violates": None, "note": "histories of two calls do not expose it: three are generated"})
+    # length classes: byte-aligned, not multiples of 64, two of them above 2^16 bits; two data variants each
+    lens = [4104, 66008, 131080] if not thorough else [4104, 66008, 262152]
+    classes = []
+    for li, n in enumerate(lens):
+        for vi in range(nvar):
+            classes.append({"n": n, "mode": ["uni", "runsbias", "bias"][(li + vi) % 3], "seed": rng.randrange(1 << 40)})
+    tmp = vlib.scratch("hist")
+    from concurrent.futures import ThreadPoolExecutor
+
+    def runjob(tag, plan, only):
+        jp = os.path.join(tmp, "j_%s.json" % tag); op = os.path.join(tmp, "o_%s.ndjson" % tag)
+        with open(jp, "w") as fh:
+            json.dump({"classes": classes, "plan": plan, "only": only, "id": 0}, fh)
+        p = vlib.run_bin(hz, ["history", jp, op], timeout=1200)
+        rows = vlib.read_ndjson(op) if os.path.exists(op) else []
+        return p, rows
+    # solitary references: one process per (class, test/parameter combination)
+    p0, rows0 = runjob("probe", list(range(1, len(classes) + 1)), -1)
+    if p0.returncode != 0 or not rows0:
+        if "panic" in (p0.stderr or "") or "fatal error" in (p0.stderr or ""):
+            run.violation({"kind": "history-crash"}, {"cmd": "history", "classes": classes, "plan": list(range(1, len(classes) + 1)), "stderr": (p0.stderr or "")[-2000:]})
+            return
+        raise vlib.InfraError("history probe failed: " + (p0.stderr or "")[-600:])
+    ncombo = [len(v) for v in rows0[0]["vals"]]
+    solo_jobs = [(c, k) for c in range(1, len(classes) + 1) for k in range(ncombo[c - 1])]
+    with ThreadPoolExecutor(max_workers=vlib.NCPU) as ex:
+        solo_res = list(ex.map(lambda ck: runjob("s%d_%d" % ck, [ck[0]], ck[1]), solo_jobs))
+    solo = {c: [None] * ncombo[c - 1] for c in range(1, len(classes) + 1)}
+    for (c, k), (p, rows) in zip(solo_jobs, solo_res):
+        if p.returncode != 0 or not rows or len(rows[0]["vals"][0]) != 1:
+            raise vlib.InfraError("solitary reference (class %d combination %d) failed: %s" % (c, k, (p.stderr or "")[-400:]))
+        solo[c][k] = rows[0]["vals"][0][0]
+    # the plans, one fresh process each
+    with ThreadPoolExecutor(max_workers=vlib.NCPU) as ex:
+        plan_res = list(ex.map(lambda ip: runjob("p%d" % ip[0], ip[1], -1), list(enumerate(plans))))
+    events = []
+    for pid, (plan, (p, rows)) in enumerate(zip(plans, plan_res)):
+        if p.returncode != 0 or not rows:
+            if "panic" in (p.stderr or "") or "fatal error" in (p.stderr or ""):
+                events.append({"ev": "hist", "nclass": len(classes), "plan": plan, "vals": [["crash"] for _ in plan], "solo": [solo[c] for c in plan], "panic": (p.stderr or "")[-600:], "id": pid})
+                continue
+            raise vlib.InfraError("history plan %s failed: %s" % (plan, (p.stderr or "")[-400:]))
+        events.append({"ev": "hist", "nclass": len(classes), "plan": plan, "vals": rows[0]["vals"], "solo": [solo[c] for c in plan], "panic": "", "id": pid})
+    acc, rej, gen = vlib.validate_trace("TraceHistory", events, timeout=1800, max_rej=6)
+    run.states += acc; run.transitions += gen; run.traces += acc
+    run.evaluations += sum(len(v) for e in events for v in e["vals"])
+    for e in events:
+        run.nontriv("hist|%s" % ",".join(map(str, e["plan"])))
+    run.extra["history_plans"] = len(plans)
+    run.extra["history_classes"] = [{"n": c["n"], "mode": c["mode"]} for c in classes]
+    run.extra["history_results_per_call"] = ncombo
+    run.sample({"history_plan": plans[len(plans) // 2], "first_values_of_its_last_call": events[len(plans) // 2]["vals"][-1][:2]})
+    for e in rej:
+        diffs = []
+        for i, c in enumerate(e["plan"]):
+            for k, (a, b) in enumerate(zip(e["vals"][i], e["solo"][i])):
+                if a != b:
+                    diffs.append({"call": i + 1, "class": c, "got": a[:160], "alone": b[:160]})
+        first = diffs[0] if diffs else {}
+        run.violation({"kind": "history", "plan": ",".join(map(str, e["plan"])), "what": (first.get("got", "").split(" ")[0] if first else "panic")},
+                      {"cmd": "history", "classes": classes, "plan": e["plan"], "differences": diffs[:8], "panic": e["panic"][:600]})
+
+
 def run(tier):
     run = vlib.Run(PROP, tier)
     thorough = tier == "thorough"
@@ -79,6 +173,7 @@ def run(tier):
     for e in rej:
         run.violation({"kind": "concurrent", "build": e["build"], "plan": e["id"], "mismatch": e.get("mismatch"), "mutated": e.get("mutated")},
                       {"cmd": "concurrent", "plan": byid.get(e["id"]), "event": e})
+    history_part(run, hz, thorough, rng)
     run.extra["race_reports"] = nrace
     run.extra["plans"] = len(plans)
     run.sample({"plan": {"id": plans[0]["id"], "goroutines": plans[0]["goroutines"], "tasks_head": plans[0]["tasks"][:3], "rounds": plans[0]["rounds"]}})
@@ -92,4 +187,18 @@ def run(tier):
 
 
 def replay(path):
-    print(json.dumps(json.load(open(path))["replay"])[:4000])
+    rp = json.load(open(path))["replay"]
+    if rp.get("cmd") == "history":
+        hz = vlib.go_build()
+        tmp = vlib.scratch("histr")
+        jp = os.path.join(tmp, "j.json"); op = os.path.join(tmp, "o.ndjson")
+        with open(jp, "w") as fh:
+            json.dump({"classes": rp["classes"], "plan": rp["plan"], "only": -1, "id": 0}, fh)
+        p = vlib.run_bin(hz, ["history", jp, op], timeout=1200)
+        rows = vlib.read_ndjson(op) if os.path.exists(op) else []
+        print("plan", rp["plan"], "rc", p.returncode)
+        for d in rp.get("differences", []):
+            now = [x for x in (rows[0]["vals"][d["call"] - 1] if rows else []) if x.split(" ")[0] == d["got"].split(" ")[0]]
+            print("call %d (class %d): recorded %s | alone %s | now %s" % (d["call"], d["class"], d["got"], d["alone"], now[:1]))
+        return
+    print(json.dumps(rp)[:4000])
